@@ -32,7 +32,7 @@ class Unit:
         mods = {}
         order = []
         for it in self.spec.get("item", []):
-            path = os.path.join(repo, it["file"])
+            path = os.path.join(repo, it.get("file", "src/lib.rs"))
             if path not in srcs:
                 if not os.path.exists(path):
                     raise ExtractError("source file %s missing" % it["file"])
@@ -43,24 +43,35 @@ class Unit:
             if module not in mods:
                 mods[module] = []
                 order.append(module)
+            if kind == "raw":
+                # contract-side text (spec/proof only, e.g. `broadcast use`) placed inside a module next to extracted items
+                mods[module].append(it["text"])
+                continue
             if kind == "fn":
                 contract = it.get("contract", "")
                 loops = it.get("loops", {})
-                text, m = splice_fn(s, it["name"], it.get("impl"), contract, loops, ret_name=it.get("ret_name"))
+                text, m = splice_fn(s, it["name"], it.get("impl"), contract, loops, ret_name=it.get("ret_name"), iter_names=it.get("loop_iter"))
+                if it.get("loop_iter"):
+                    note = "for-loop ghost iterator named in the loop header: `for x in e` written as `for x in it: e` (Verus annotation syntax, header only)"
+                    if note not in meta["dropped"]:
+                        meta["dropped"].append(note)
                 if it.get("ret_name"):
                     note = "return value named in the signature: `-> T` written as `-> (%s: T)` (signature only, body untouched)" % it["ret_name"]
                     if note not in meta["dropped"]:
                         meta["dropped"].append(note)
                 if it.get("strip_pub"):
                     text = re.sub(r"^pub\s+", "", text)
+                pre = it.get("pre_attr")
+                if pre:
+                    text = pre + "\n" + text
+                    note = "verifier attribute placed on the fn item: %s" % pre
+                    if note not in meta["dropped"]:
+                        meta["dropped"].append(note)
                 wrap = it.get("impl_as")
                 if wrap:
                     text = wrap + " {\n" + text + "\n}"
                     if it.get("impl") and " for " in it["impl"]:
                         meta["dropped"].append("impl header `impl %s` rewritten to `%s` (body untouched)" % (it["impl"], wrap))
-                pre = it.get("pre_attr")
-                if pre:
-                    text = pre + "\n" + text
                 mods[module].append(text)
                 meta["items"].append({"kind": "fn", "name": (it.get("impl", "") + "::" if it.get("impl") else "") + it["name"],
                                       "file": it["file"], "lines": list(m["lines"]), "loops": m["n_loops"],
